@@ -144,6 +144,17 @@ func (f *FuncInfo) Graph() *Graph {
 		add := func(e *Event) { chain = append(chain, e) }
 		isCondBlock := len(b.Succs) == 2 && len(b.Nodes) > 0 &&
 			(b.Succs[0].Kind == cfg.KindIfThen || (b.Succs[0].Kind == cfg.KindForBody && b.Kind == cfg.KindForLoop))
+		// the case expressions of a tagless switch are ordinary conditions (for a tagged switch go/cfg synthesises
+		// `tag == value` nodes that carry no type information; those stay non-refinable case events)
+		if !isCondBlock && len(b.Succs) == 2 && len(b.Nodes) > 0 && b.Succs[0].Kind == cfg.KindSwitchCaseBody {
+			if x, ok := b.Nodes[len(b.Nodes)-1].(ast.Expr); ok {
+				if tv, has := f.Info().Types[x]; has && tv.Type != nil {
+					if bt, ok := tv.Type.Underlying().(*types.Basic); ok && bt.Info()&types.IsBoolean != 0 {
+						isCondBlock = true
+					}
+				}
+			}
+		}
 		for i, n := range b.Nodes {
 			stmt := n
 			// sub-expression events in evaluation (post-)order
